@@ -785,8 +785,11 @@ func c20ModulePath(data string) (msg, shape string, applicable bool) {
 	if hung || panicked {
 		return "ModulePath: " + pmsg, "", true
 	}
-	f, err := modfile.Parse("go.mod", []byte(data), nil)
-	if err != nil || f.Module == nil || f.Module.Syntax.InBlock {
+	_, f, _, err, bad := mfParse("Parse", data, 0)
+	if bad != "" {
+		return bad, "", true
+	}
+	if err != nil || f == nil || f.Module == nil || f.Module.Syntax.InBlock {
 		return "", "", false
 	}
 	if module.CheckImportPath(f.Module.Mod.Path) != nil {
@@ -883,6 +886,23 @@ func c20Directives(c *hx.Ctx) {
 		in.Op = "lax-ignores"
 		c.Check("lax-ignores-unknown", msg == "", "", in, msg)
 	}
+	// every verb with every proper prefix of a well-formed argument list (exhaustive)
+	for _, work := range []bool{false, true} {
+		for _, data := range gen.TruncatedDirectives(work) {
+			for mode := 0; mode < 2; mode++ {
+				fns := []string{"Parse", "ParseLax"}
+				if work {
+					fns = []string{"ParseWork"}
+				}
+				for _, fn := range fns {
+					c20DirCase(c, fn, data, mode)
+					_, _, _, _, bad := mfParse(fn, data, mode)
+					c.Count("truncated:" + fn)
+					c.Check("directive-total", bad == "", "", c20In{Op: "total:" + fn, Data: hex.EncodeToString([]byte(data)), Mode: mode}, bad)
+				}
+			}
+		}
+	}
 	// ModulePath
 	for i := 0; i < c.N(4000); i++ {
 		var data string
@@ -933,6 +953,9 @@ func c20DirectiveReplay(op, data string, mode int) string {
 		return m
 	case "work-total":
 		_, _, _, _, bad := mfParse("ParseWork", data, mode)
+		return bad
+	case "total:Parse", "total:ParseLax", "total:ParseWork":
+		_, _, _, _, bad := mfParse(strings.TrimPrefix(op, "total:"), data, mode)
 		return bad
 	case "modulepath":
 		m, _, _ := c20ModulePath(data)
